@@ -578,10 +578,16 @@ class History(object):
     def op_big(self, sender, target, delta):
         limit = self.cfg["max_message_size"]
         total = limit + delta
-        kw = dict(path=b"/t", iface=b"com.example.L", member=b"Big", dest=target.unique, sig=b"ay")
-        serial, data = sender.build(4, body=[b""], **kw)
+        # the path length moves the end of the header fields through all eight alignments (0..7 padding bytes before the
+        # body), either byte order
+        # the length of the SIGNATURE field (the last header field) moves the end of the header fields through all eight
+        # alignments (0..7 padding bytes before the body); either byte order
+        j = self.rng.randint(0, 7)
+        kw = dict(path=b"/t" + b"x" * self.rng.randint(0, 7), iface=b"com.example.L", member=b"Big", dest=target.unique, sig=b"ay" + b"y" * j,
+                  order=self.rng.choice("lB"))
+        serial, data = sender.build(4, body=[b""] + [7] * j, **kw)
         pad = total - len(data)
-        serial, data = sender.build(4, body=[bytes(bytearray((i * 7 + 3) & 0xFF for i in range(pad)))], serial=serial, **kw)
+        serial, data = sender.build(4, body=[bytes(bytearray((i * 7 + 3) & 0xFF for i in range(pad)))] + [7] * j, serial=serial, **kw)
         assert len(data) == total
         verdict = self.model.size_verdict(total)
         self.step("signal of %d bytes (max_message_size%+d) %s -> %s (model: %s)" % (total, delta, self.lab(sender.unique), self.lab(target.unique), verdict))
@@ -629,7 +635,7 @@ class History(object):
                and r.msg.serial == serial]
         target.inbox = [r for r in target.inbox if r not in got]
         self.part.sig("big", delta, limit, len(got))
-        if len(got) != 1 or bytes(bytearray(got[0].msg.body[0])) != data[len(data) - pad:]:
+        if len(got) != 1 or bytes(bytearray(got[0].msg.body[0])) != data[len(data) - pad - j:len(data) - j]:
             self.violation("message-size:within-limit-not-delivered", "a %d byte message (max_message_size=%d) was delivered %d times%s"
                            % (total, limit, len(got), "" if len(got) != 1 else " with a different body"))
         else:
@@ -826,7 +832,7 @@ class History(object):
                 if len(self.live) >= 2:
                     sender = rng.choice(self.live[1:])
                     target = rng.choice([x for x in self.live if x is not sender])
-                    self.op_big(sender, target, rng.choice([-1, 0, 1]))
+                    self.op_big(sender, target, rng.choice([-1, 0, 1, 1, 3, 7, 8]))
                 else:
                     self.op_big(c, c, rng.choice([-1, 0]))
             self.compare_counters()
